@@ -358,7 +358,8 @@ class DiscriminatedAlternative(UnionAlternative):
     def serialize(self, obj: Any, path: Union[int, str, None] = None) -> Any:
         res = super().serialize(obj, path)
         if isinstance(res, dict) and self.alias not in res:
-            res[self.alias] = self.key
+            # res can be (a part of) the serialized object itself (no_copy)
+            res = {**res, self.alias: self.key}
         return res
 
 
